@@ -1,5 +1,6 @@
 CFG = {
-    "modules": ["Parsley.Props.C04", "Parsley.Props.C04Ctx", "Parsley.Props.C04E2E", "Parsley.Props.C04Hist", "Parsley.Props.C04HistMix", "Parsley.Props.C04Enc"],
+    "modules": ["Parsley.Props.C04", "Parsley.Props.C04Ctx", "Parsley.Props.C04E2E", "Parsley.Props.C04Hist", "Parsley.Props.C04HistMix", "Parsley.Props.C04Enc",
+                "Parsley.Props.C04Render", "Parsley.Props.C04Hyb", "Parsley.Props.C04ObjStm"],
     "theorems": [
         "Parsley.C04.prev_cycle_or_oob_rejected", "Parsley.C04.root_from_newest", "Parsley.C04.merge_is_newest_wins_partial",
         "Parsley.C04.infoOf_inFile",
@@ -35,6 +36,27 @@ CFG = {
         "Parsley.C03.objstm_skipped_when_flagged", "Parsley.C03.refused_declared_above_stream",
         "Parsley.DocSpec.renderHistoryE_none", "Parsley.DocSpec.asBuilt_classic", "Parsley.DocSpec.asBuilt_undeclared",
         "Parsley.DocSpec.asBuilt_reject_acceptable", "Parsley.DocSpec.walkFlag_true_trailer", "Parsley.DocSpec.asBuilt_one_section",
+        # follow-up C03d (1): THE GENERATOR LINK for histories of any number of revisions (kinds 0 and 1)
+        "Parsley.C04.render_history_loads_partial", "Parsley.C04.renderHistory_mix_wf_partial", "Parsley.C04.hist_links",
+        "Parsley.C04.notEdited_of_check", "Parsley.C04.exHistR_simple",
+        "Parsley.LoaderE2E.cls_link", "Parsley.LoaderE2E.stm_link", "Parsley.LoaderE2E.mkRev_link", "Parsley.LoaderE2E.xstoreFits_of_count",
+        "Parsley.LoaderE2E.renderRevs_saids", "Parsley.LoaderE2E.renderRevs_bytes", "Parsley.LoaderE2E.placeM_plan", "Parsley.LoaderE2E.plan_links",
+        "Parsley.LoaderE2E.histFile_bytes", "Parsley.LoaderE2E.histFile_wf", "Parsley.LoaderE2E.render_history_resolve",
+        # follow-up C03d (2): hybrid (/XRefStm) sections inside a history, hidden objects included
+        "Parsley.C04.newest_wins_history_hybrid", "Parsley.C04.newest_wins_history_hybrid_objs", "Parsley.C04.newest_wins_history_hybrid_spec",
+        "Parsley.C04.hiddenClash_false_of_keys_nodup", "Parsley.C04.hybridGen0_section", "Parsley.C04.hybrid_hidden_gen0_excluded",
+        "Parsley.C04.vis_hybrid_iff", "Parsley.C04.vis_mentions_same_numbers", "Parsley.C04.exHyb_wf", "Parsley.C04.exHyb_ents",
+        "Parsley.LoaderE2E.section_hybrid_from", "Parsley.LoaderE2E.infoOf_dedup_hidden", "Parsley.LoaderE2E.hsec_reads",
+        "Parsley.LoaderE2E.HybMixFile.merge_visible", "Parsley.LoaderE2E.HybMixFile.xrefinfo_hybmix", "Parsley.LoaderE2E.load_hybmix",
+        "Parsley.LoaderE2E.load_hybmix_objs", "Parsley.LoaderE2E.load_hybmix_spec",
+        # follow-up C03d (3): object streams inside a history whose members / containers no later revision mentions
+        "Parsley.C04.newest_wins_history_objstm", "Parsley.C04.newest_wins_history_objstm_objs", "Parsley.C04.newest_wins_history_objstm_spec",
+        "Parsley.C04.newest_wins_history_mix_of_objstm", "Parsley.C04.objstmRedef_sections", "Parsley.C04.objstm_member_touched_excluded",
+        "Parsley.C04.exO_wf", "Parsley.C04.exO_resolve",
+        "Parsley.LoaderE2E.msec_reads2", "Parsley.LoaderE2E.untouched_spec", "Parsley.LoaderE2E.stage_merged_objstm", "Parsley.LoaderE2E.objstm_not_xref",
+        "Parsley.LoaderE2E.MixFile.xrefinfo_mix2", "Parsley.LoaderE2E.load_mix_core2", "Parsley.LoaderE2E.load_mix_objstm",
+        "Parsley.LoaderE2E.load_mix_objstm_objs", "Parsley.LoaderE2E.load_mix_objstm_spec", "Parsley.LoaderE2E.MixFile.WF.toWFo",
+        "Parsley.LoaderE2E.TableOf2.written_nodup", "Parsley.LoaderE2E.not_mentioned_iffO",
     ],
     "partial": {
         "merge_is_newest_wins_partial":
@@ -61,16 +83,36 @@ CFG = {
             "value; the final context equals DocSpec.resolve of what the revisions said (_spec). No hypothesis about the walk remains (xrefinfo_mix: get_xref_info = "
             "first-occurrence merge of all sections newest first, fuel sufficient, context = exactly the stream objects; getXrefInfo = ok, Chain, ClassicAt, StableGen X, ReadsAt "
             "are all derived). Non-vacuity exHist2_wf, exHist3_wf (three classic revisions, the last re-creates a freed object), exMix_wf (classic base + stream update with /Prev). "
-            "STILL OPEN: hybrid (/XRefStm) sections and /Encrypt in a history with stream sections, objects that load only in the second pass (forward /Length) in a history "
-            "(single revisions of all these kinds: C03 load_defines_exactly_xrefstream_all / _hybrid_all), the link renderHistory -> MixFile. "
+            "FOLLOW-UP C03d CLOSED THREE GAPS. (1) THE GENERATOR LINK (Props/C04Render.lean; render_history_loads_partial, renderHistory_mix_wf_partial): for ANY number of revisions, each "
+            "kind 0 (classic table) or kind 1 (cross-reference stream), chained with PrevMode.auto, the file written by the EXECUTABLE encoder DocSpec.renderHistory - the generator "
+            "of the correspondence run - is the byte string of a well-formed MixFile (every offset, /Prev value and startxref the encoder computes is the one the layout demands: "
+            "per-revision interface RevLink, proved by cls_link / stm_link for a revision rendered at ANY position with ANY /Prev; composition plan / histFile / histFile_wf), what "
+            "the encoder REPORTS (the Said list the judge feeds to DocSpec.resolve) resolves to the same bindings as the layout's description (render_history_resolve), hence "
+            "parseData (renderHistory ..) = ok, root = the newest revision's root and the final context = DocSpec.resolve of the encoder's report. No hypothesis about the walk, "
+            "the chain or the file remains - only conditions on the REVISION LIST: HistSimple = every revision SimpleRev / SimpleRevX (scalar objects written canonically - _partial "
+            "for that reason, as in C03's single-revision links -, no object-stream members, no swap / relabel, size bounds; FlateDecode'd rows at most 13 bytes x (objects + frees + 2) "
+            "<= 65535), at least one revision, stable generations over all revisions, cross-reference stream objects not mentioned later, no object numbered 0, file < 2^32 bytes. "
+            "Non-vacuity exHistR_simple: classic base, Flate + PNG-Up stream update (redefine, add, free), classic update re-creating the freed number - evaluated examples. "
+            "(2) HYBRID SECTIONS IN A HISTORY (Props/C04Hyb.lean; newest_wins_history_hybrid, _objs, _spec over HybMixFile = MixFile whose revisions may also be table + trailer /XRefStm -> "
+            "stream object in the body, rows of type 0/1): HIDDEN objects allowed (free entry in the table + real entry in the stream; the stream entry decides). The known finding "
+            "C03-hybrid-hidden-gen0 is excluded by the DECIDABLE predicate hiddenClash tbl stm (a hidden free entry with the generation of its stream entry): WF asks hiddenClash = false "
+            "per hybrid section, stable generations and one mention per section among the VISIBLE entries only; hybrid_hidden_gen0_excluded evaluates the predicate to true on the "
+            "witness file hybridGen0 (and false on hybridGen65535), hiddenClash_false_of_keys_nodup relates it to C03's keysNodup. Key lemma infoOf_dedup_hidden: hidden entries can only "
+            "shadow hidden entries, so the loading stage sees the merge of the visible entries. Non-vacuity exHyb_wf (classic base + hybrid update hiding object 5 with generation 65535). "
+            "(3) OBJECT STREAMS IN A HISTORY (Props/C04ObjStm.lean; newest_wins_history_objstm, _objs, _spec over MixFile with the weaker WFo: type-2 rows allowed): every member (n,0) of "
+            "every object stream is bound to the value written in the stream, file-level numbers as before. The known finding C04-objstm-member-touched-later is excluded by the DECIDABLE "
+            "predicate memberTouchedLater (a later section mentions a member or container number): WFo asks it to be false; objstm_member_touched_excluded evaluates it to true on the "
+            "witness objstmRedef (sections read with the model: objstmRedef_sections). WF is the special case ws = [] (newest_wins_history_mix_of_objstm). Stage lemma stage_merged_objstm. "
+            "Non-vacuity exO_wf (stream base with an object stream of two members + classic update touching no member). "
+            "STILL OPEN: (2) and (3) combined (hybrid sections whose stream hides object-stream members, inside a history), /Encrypt in a history with stream sections, objects that load only in "
+            "the second pass (forward /Length) in a history (single revisions of all these kinds: C03 load_defines_exactly_xrefstream_all / _hybrid_all), the generator link for hybrid revisions "
+            "(kind 2), object-stream members and non-scalar values. "
             "ENCRYPTION: histories that declare /Encrypt are judged on the real code by DocSpec.acceptable (refused, or exactly DocSpec.resolve of the chain; 8 generator families). KNOWN FINDING "
             "encrypt-declared-below-streams (witness Props/C04Enc.lean): a trailer that declares BELOW a stream section is read after that stream was accepted - the load is accepted and every "
             "object-stream member is silently undefined, which breaks the statement literally. Observation, not a finding: a declaration only in a stream dictionary is never consulted and the "
             "history loads exactly (encrypt_in_stream_dict_ignored_observation). "
-            "EXCLUDED (real defects, known findings with witness theorems, not proof gaps): histories in which a number changes generation (#29) and object-stream "
-            "members mentioned again later (#30; more generally any in-stream entry); also hybrid sections and objects that only load in the second pass. NOT proved: "
-            "that a history rendered by DocSpec.renderHistory satisfies the hypotheses (getXrefInfo succeeds along the rendered chain) - C03's load_defines_exactly_classic "
-            "does this for ONE revision; for several revisions the chain walk over rendered sections is decided by the oracle.",
+            "EXCLUDED (real defects, known findings with witness theorems, not proof gaps): histories in which a number changes generation (#29), object-stream "
+            "members or containers mentioned again later (#30: memberTouchedLater), a hidden object's free entry with the generation of its stream entry (#31: hiddenClash).",
         "(fuel)": "xrefLoop takes a fuel |file|+1; xrefLoop_fuel_stable/getXrefInfo_fuel_stable: more fuel never changes the result, getXrefInfo_panic_origin: "
             "every panic outcome originates in a component parser, never in the fuel branch; chain_length_bounded: at most |file| sections are read",
     },
@@ -123,9 +165,12 @@ LEVEL = {
             "concrete files: a free entry with the standard's generation bump leaves the object defined (#29), and an object-stream member redefined "
             "later is bound to its OLD value while its stream neighbours are lost (#30). END-TO-END THEOREM newest_wins_history_mix: for every well-formed history of ANY number "
             "of revisions encoded with classic tables or cross-reference streams in any mix (declarative layout MixFile, all offsets computed from the layout, stable generations) parse_data accepts, reports the newest "
-            "root and the final context equals the oracle DocSpec.resolve of what the revisions said. Histories with hybrid sections, changing generations and "
-            "object streams are decided on the real code by the "
-            "oracle over generated histories (add / redefine / free, mixed table and stream sections, all /Prev targets). "
+            "root and the final context equals the oracle DocSpec.resolve of what the revisions said. THE GENERATOR LINK render_history_loads_partial: the file the executable encoder DocSpec.renderHistory writes for "
+            "ANY list of simple revisions (kinds 0 / 1, scalar values, stable generations) is such a MixFile and the loader's context is DocSpec.resolve of the encoder's own report - the "
+            "judge's oracle on the same case. Also proved end to end: histories with HYBRID sections incl. hidden objects (newest_wins_history_hybrid; the shape of known finding #31 excluded by the "
+            "decidable predicate hiddenClash, true on the witness) and histories with OBJECT STREAMS whose members and containers no later revision mentions (newest_wins_history_objstm; #30 "
+            "excluded by the decidable predicate memberTouchedLater, true on the witness). Changing generations, touched members and the remaining layout combinations are decided on the real code by the "
+            "oracle over generated histories (add / redefine / free, mixed table, stream and hybrid sections, all /Prev targets). "
             "THE ENCRYPTED FLAG ALONG THE CHAIN (Props/C04Enc.lean): a classic section that declares /Encrypt above a non-table section makes the walk refuse (or use none of its entries) - "
             "declared_above_stream_adds_nothing; the mirror image (declaration below the streams) is accepted with the object streams skipped and the members undefined: known finding with witness; histories "
             "declaring encryption in 8 families (newest / older / hybrid / off-chain revision, every layout mix) must be refused or load exactly.",
